@@ -147,4 +147,28 @@ PROPS['C09'] = {
     'assumptions': ['reference model as in C01-C03'],
 }
 
+PROPS['C11'] = {
+    'level': 'exploration',
+    'technique': 'bounded-exhaustive enumeration over a structured key alphabet and every HMAC key length on the real helpers, against reference key material / by consumption',
+    'level_text': 'Every key-preparation helper on all 7 variants over the key alphabet (all-zero, all-one, all 256 single-bit keys, 32 byte patterns, the 16 weak/semi-weak DES keys, 32 seed-derived keys; thorough 128): AES encryption schedules vs FIPS-197 expansion, CMAC sub-keys, XCBC keys, HMAC ipad/opad for every key length 0..2*block+17 of 7 hashes (MD5 over one block must be refused with the key-length error), the six 3GPP IV generators over boundary values; library-private layouts (decrypt schedules, DES, GCM/GHASH tables, SM4, KASUMI, SNOW3G) are decided by consumption in 36 job types vs the reference; common formats must be byte-identical across variants.',
+    'level_note': 'Key values outside the alphabet are not covered. GCM tables differ by architecture by design and are judged by consumption only.',
+    'drivers': [{'name': 'c11', 'src': ['props/c11.c'] + ALG, 'cfgs': ['std'], 'args': ''}],
+    'assumptions': ['reference key derivations (own FIPS-197 expansion with algebraically derived S-box, ref_modes sub-key functions)'],
+}
+
+PROPS['C14'] = {
+    'level': 'model_checking',
+    'technique': 'invariant (descriptor unchanged, status final, error code exact) evaluated on every transition of the C05 explicit-state exploration of the real scheduler + bounded-exhaustive per-suite sweep + integer-range sweep of imb_get_strerror',
+    'level_text': 'The status / error-code / descriptor invariants are evaluated after every call of the complete reachable state space of the real scheduler on the 4-slot ring (job and burst API, immediate / parked / chained / rejected jobs, incl. the full-queue paths) - the same exploration as C05, reported under C14 - and on every job of a per-suite sweep (every algorithm row, direction and variant, 1..5 jobs in flight with an invalid job at every position). imb_get_strerror is called on [-70000, 70000] plus limits (quick) or on all 2^32 int values (thorough) and must return a non-NULL terminated string; every IMB_ERR_* code must have its own description.',
+    'level_note': 'Message-length fields and u.SNOW_V_AEAD.reserved are excluded (documented rewriting / scratch). The C04 driver additionally compares descriptors on every job of its schedules and reports under C14.',
+    'drivers': [
+        {'name': 'c14', 'src': ['props/c14.c'] + ALG, 'cfgs': ['std'], 'args': ''},
+        {'name': 'c05', 'src': ['props/c05.c'] + BFS, 'cfgs': ['ring4'], 'args': 'job all ISLX C14'},
+        {'name': 'c05', 'src': ['props/c05.c'] + BFS, 'cfgs': ['ring4'], 'args': 'burst all ISLX C14'},
+        {'name': 'c05', 'src': ['props/c05.c'] + BFS, 'cfgs': ['ring4'], 'args': 'job 0 ISLC C14'},
+    ],
+    'deadline': {'quick': 900, 'thorough': 3000},
+    'assumptions': ['reduced-ring build differs from the shipped one only in the ring size'],
+}
+
 NOT_APPLICABLE = {}
